@@ -38,6 +38,7 @@
 From Coq Require Import List ZArith Bool Arith.
 Import ListNotations.
 From TI Require Import lib.Sched model.Caches proofs.CachesProofs proofs.MemoProofs proofs.SwapProofs.
+From TI Require Import model.CachesInval proofs.InvalProofs.
 
 (** the cell size returned after any history is the fresh one for the current terminal
     size and swap setting, under the query status in force when the entry was made *)
@@ -381,3 +382,97 @@ Theorem C15_swap_toggle_refuted_late_flag :
     /\ w_flag s = true /\ w_cache s = Some false /\ w_answer s <> w_flag s.
 Proof. exact swap_toggle_refuted_late_flag. Qed.
 Print Assumptions C15_swap_toggle_refuted_late_flag.
+
+(** ** a memoised CALL against a concurrent INVALIDATION
+    (model/CachesInval.v: any number of threads running programs of calls of a memoised
+    function (any argument tuples), bare [_invalidate_cache()] calls, [enable_queries()]
+    and [disable_queries()]; micro-steps of a call: acquire / lookup / body start (the
+    body reads the condition it computes under: [_queries_enabled]) / body end (the
+    terminal's reply arrives) / setdefault / release / return to the caller; of an
+    invalidation: acquire / [cache.clear()] / release / return (or the rest of
+    [enable_queries]); of [enable_queries]: test / flag write / then the invalidation;
+    [disable_queries]: one flag write.  Every entry carries, as ghost data,
+    the condition its body read ([e_cond]) and the number of [cache.clear()]s executed
+    when its body started ([e_born]); a finished call records [(fl, k, en)], [fl] = the
+    number of clears executed when the call acquired the lock.)
+
+    at most one thread is inside the region protected by the decorator's lock: an
+    invalidation never overlaps a body *)
+Theorem C15_inval_mutex :
+  forall f0 warm prog s t1 t2,
+    reachable qstep (qinit f0 warm prog) s -> q_inside s t1 -> q_inside s t2 -> t1 = t2.
+Proof. exact inval_mutex_lemma. Qed.
+Print Assumptions C15_inval_mutex.
+
+(** in every reachable state — hence under every schedule, wherever the invalidating
+    thread runs relative to the lock / lookup / body / store steps of a call — every
+    cache entry, and every entry a thread is about to store or return, was made by a body
+    that started after the last [cache.clear()]; and a call that began when [fl] clears
+    had been executed returned an entry whose body started when at least [fl] had: after
+    an invalidation completes, no later call returns a value whose body started before
+    the invalidation completed *)
+Theorem C15_inval_no_stale :
+  forall f0 warm prog s,
+    reachable qstep (qinit f0 warm prog) s ->
+    (forall k en, q_cache s k = Some en -> e_born en = q_invals s)
+    /\ (forall t en, q_holds s t en -> e_born en = q_invals s)
+    /\ (forall t fl k en, In (fl, k, en) (q_rets (q_th s t)) -> (fl <= e_born en)%nat).
+Proof. exact inval_no_stale_lemma. Qed.
+Print Assumptions C15_inval_no_stale.
+
+Theorem C15_inval_no_stale_schedules :
+  forall f0 warm prog sch t fl k en,
+    In (fl, k, en) (q_rets (q_th (run_sched qstep (qinit f0 warm prog) sch) t)) ->
+    (fl <= e_born en)%nat.
+Proof. exact inval_no_stale_schedules. Qed.
+Print Assumptions C15_inval_no_stale_schedules.
+
+(** the variant whose [invalidate] does NOT take the lock admits a schedule (the clear
+    lands while a first call is inside the body) after which all three threads have
+    finished, the body has run ONCE, and the call that began after the invalidation had
+    completed returned the value whose body started before it *)
+Theorem C15_inval_no_stale_refuted_unlocked :
+  exists f0 warm prog sch t fl k en,
+    let s := run_sched (qstep_gen false) (qinit f0 warm prog) sch in
+    q_done s 3 /\ In (fl, k, en) (q_rets (q_th s t)) /\ (e_born en < fl)%nat /\ q_runs s = 1%nat.
+Proof. exact inval_refuted_unlocked. Qed.
+Print Assumptions C15_inval_no_stale_refuted_unlocked.
+
+(** the library-level reading, for [enable_queries] / [disable_queries]: in every reachable
+    state in which queries are enabled and no [enable_queries] is between its flag write
+    and its clear — in particular once [enable_queries()] has returned, as long as queries
+    stay enabled — a call answers with a value computed with queries enabled ([q_answer]:
+    the condition read by the body whose value a call running alone returns), and no entry
+    made by a body that read "disabled" is in the cache, about to be stored, or about to
+    be returned: a result computed while queries were disabled is never returned after
+    [enable_queries()] has returned *)
+Theorem C15_enable_queries_discards_in_flight :
+  forall f0 warm prog s,
+    reachable qstep (qinit f0 warm prog) s ->
+    (forall u, ~ q_pending s u) -> q_flag s = true ->
+    (forall k, q_answer s k = true)
+    /\ (forall k en, q_cache s k = Some en -> e_cond en = true)
+    /\ (forall t en, q_holds s t en -> e_cond en = true).
+Proof. exact enable_discards_lemma. Qed.
+Print Assumptions C15_enable_queries_discards_in_flight.
+
+Theorem C15_enable_queries_discards_in_flight_schedules :
+  forall f0 warm prog sch,
+    let s := run_sched qstep (qinit f0 warm prog) sch in
+    (forall u, ~ q_pending s u) -> q_flag s = true -> forall k, q_answer s k = true.
+Proof. exact enable_discards_schedules. Qed.
+Print Assumptions C15_enable_queries_discards_in_flight_schedules.
+
+(** the variant whose [invalidate] does not take the lock: queries disabled, thread 0
+    inside the body of a first call, thread 1 runs [enable_queries()] to completion, thread
+    0 finishes: both threads have finished, queries are enabled, nothing is pending, and
+    the entry made under "disabled" — by a body that started before the clear — is in the
+    cache and answers the next call *)
+Theorem C15_enable_queries_refuted_unlocked :
+  exists f0 warm prog sch,
+    let s := run_sched (qstep_gen false) (qinit f0 warm prog) sch in
+    q_done s 2 /\ (forall u, ~ q_pending s u)
+    /\ q_flag s = true /\ q_answer s 0 = false
+    /\ exists en, q_cache s 0 = Some en /\ e_cond en = false /\ (e_born en < q_invals s)%nat.
+Proof. exact enable_refuted_unlocked. Qed.
+Print Assumptions C15_enable_queries_refuted_unlocked.
